@@ -267,9 +267,9 @@ func (e *Env) RFileScope() {
 		e.Run.Violation("R-FILESCOPE", "fragment exists", "", "function missing")
 		return
 	}
-	lit, _ := funcLitNamed(info, fd, "processFile")
+	lit := e.perFilePass(pkg, fd)
 	if lit == nil || len(lit.Type.Params.List) != 1 {
-		e.Run.Undecided("R-FILESCOPE", "processFile closure", e.Prog.Pos(fd.Pos()), "per-file pass no longer has the shape `processFile := func(astf *ast.File)`")
+		e.Run.Undecided("R-FILESCOPE", "processFile closure", e.Prog.Pos(fd.Pos()), "no function of one *ast.File parameter that fragment() calls for a file and for each file of a package")
 		return
 	}
 	astf := info.Defs[lit.Type.Params.List[0].Names[0]]
@@ -339,6 +339,10 @@ func (e *Env) RFileScope() {
 			}
 			if call, ok := m.(*ast.CallExpr); ok {
 				if id, ok := call.Fun.(*ast.Ident); ok && markers[info.Uses[id]] {
+					stores = true
+				}
+				// … or through a function of the package that is handed the set
+				if e.markingFuncOf(pkg, call) != nil {
 					stores = true
 				}
 			}
